@@ -1541,5 +1541,24 @@ theorem triangular_affine_gen_audit_instance (c : List ℝ) :
     ⟨rfl, by intro r hr; simp at hr; rcases hr with rfl | rfl <;> rfl⟩ rfl rfl c
 
 end Audit
+/-! ## `triangular_spline_flow.make_layer`, REGENERATED (`Gen/Flows.lean`, translator `py2flows.FTr`; g25; see C01 `gen_tri_spline_make_layer_eq`) -/
+section TriSplineGen
+open Flows FlowsPf
+
+/-- `flowNd_tri_spline_normalised` about the REGENERATED closure: `Transformed(base, bijection)` whose layers are the generated
+`triangular_spline_flow.make_layer` (the layer as constructed from its keys) over a normalised base on `ℝ^dim` integrates to one —
+any number of layers, both values of `invert`, every key (`FlowsPf.GenTriSplineKeysOK`), every condition -/
+theorem gen_flowNd_tri_spline_normalised {K : Type} {dim : ℕ} {m : ℝ} {knots : ℕ} {cond_dim : Option ℕ}
+    {key : ℕ → TriSplineKey ℝ} {nl : ℕ} (h : GenTriSplineKeysOK dim m knots cond_dim key nl) (invert : Bool)
+    (base : Distn (Fin dim → ℝ) (List ℝ) K ℝ) (c : List ℝ) (hbase : ∫ z, Real.exp (base.logProb z c) = 1) :
+    ∫ y, Real.exp ((Transformed.mk base
+      (NetMass.liftBij dim (genTriSplineFlowBij dim m knots cond_dim key nl invert))).toDist.logProb y c) = 1 := by
+  rw [FlowsPf.genTriSplineFlowBij_eq]
+  exact flowNd_tri_spline_normalised dim m _ nl invert h.net h.perm base c hbase
+
+/-- non-vacuity: the hypotheses hold for the 2-layer conditional keys of C01 `gen_tri_spline_flow_instance` -/
+theorem gen_flowNd_tri_spline_instance : GenTriSplineKeysOK 3 3 4 (some 2) genTriKeys 2 := genTriKeys_ok
+
+end TriSplineGen
 
 end C04
